@@ -35,6 +35,15 @@ impl<C: Configuration> DeletedEntries<C> {
     pub(super) fn clear(&mut self) {
         self.memos.clear();
     }
+
+    /// Verification hook: addresses of the deferred memos, in push order.
+    #[cfg(salsa_verif)]
+    pub(super) fn verif_addrs(&self) -> Vec<usize> {
+        self.memos
+            .iter()
+            .map(|(_, memo)| memo.0.as_ptr() as usize)
+            .collect()
+    }
 }
 
 /// A wrapper around `NonNull` that frees the allocation when it is dropped.
